@@ -23,9 +23,9 @@ VARIABLES i, skip, runs
 tvars == <<vars, i, skip, runs>>
 
 TOps  == [k : {"R", "W", "WA", "S", "G", "D", "C", "Y"}, a : 0 .. 64, b : 0 .. 64]
-TExts == [k : {"xw", "xr", "xc", "xs", "xt"}, a : 0 .. 64, b : 0 .. 64]
+TExts == [k : {"xw", "xr", "xc", "xs", "xt", "xn"}, a : 0 .. 64, b : 0 .. 64]
 
-ExtKinds == {"xw", "xr", "xc", "xs", "xt"}
+ExtKinds == {"xw", "xr", "xc", "xs", "xt", "xn"}
 
 \* `se`: y of the record is the order in which the timer tasks were really
 \* woken - any order that respects the deadlines (z of the model) is allowed
@@ -90,6 +90,7 @@ ResetStep ==
   /\ r.e = "reset"
   /\ occ' = [p \in Pipes |-> 0]
   /\ open' = [fd \in Fds |-> TRUE]
+  /\ nb0' = [fd \in Fds |-> FALSE]
   /\ now' = 0
   /\ disp' = [s \in Sigs |-> "Default"]
   /\ blk' = b /\ base' = b
